@@ -87,7 +87,15 @@ var (
 	ErrInvalidTopic = errors.New("invalid topic configuration")
 	// ErrUnknownTopic indicates the topic does not exist.
 	ErrUnknownTopic = errors.New("unknown topic")
+	// ErrInvalidPartitions indicates a partition count above MaxTopicPartitions.
+	// It wraps ErrInvalidTopic so callers matching on that keep working.
+	ErrInvalidPartitions = fmt.Errorf("%w: more than %d partitions", ErrInvalidTopic, MaxTopicPartitions)
 )
+
+// MaxTopicPartitions is the largest partition count a single topic may have.
+// The count is supplied by clients (CreateTopics, CreatePartitions) and sizes
+// the in-memory and persisted topic metadata, so it has to be bounded.
+const MaxTopicPartitions = 10000
 
 // ClusterMetadata describes the Kafka-visible cluster state.
 type ClusterMetadata struct {
@@ -322,6 +330,9 @@ func (s *InMemoryStore) CreateTopic(ctx context.Context, spec TopicSpec) (*proto
 	if !ValidTopicName(spec.Name) || spec.NumPartitions <= 0 {
 		return nil, ErrInvalidTopic
 	}
+	if spec.NumPartitions > MaxTopicPartitions {
+		return nil, ErrInvalidPartitions
+	}
 	if spec.ReplicationFactor <= 0 {
 		spec.ReplicationFactor = 1
 	}
@@ -437,6 +448,9 @@ func (s *InMemoryStore) CreatePartitions(ctx context.Context, topic string, part
 	}
 	if topic == "" || partitionCount <= 0 {
 		return ErrInvalidTopic
+	}
+	if partitionCount > MaxTopicPartitions {
+		return ErrInvalidPartitions
 	}
 	s.mu.Lock()
 	defer s.mu.Unlock()
